@@ -123,12 +123,20 @@ func c07Filter(rules []c07Rule) *server.ExtAuthZFilter {
 		}
 		cfg.TriggerRules = append(cfg.TriggerRules, tr)
 	}
-	return server.NewExtAuthZFilter(cfg, nil, nil, nil)
+	// as in cmd/main.go the filter is built around the configuration object before that is filled in
+	shell, fill := sim.LateConfig(cfg)
+	f := server.NewExtAuthZFilter(shell, nil, nil, nil)
+	fill()
+	return f
 }
 
 // c07Observe returns whether authentication was triggered for the target (deny-all mock: OK <=> not triggered).
+// c07Headers, when set by a part, go out with every request of the case: headers that name another path must not
+// take part in the decision (any client can send them).
+var c07Headers map[string]string
+
 func c07Observe(f *server.ExtAuthZFilter, target string) (triggered bool, err error) {
-	resp, err := f.Check(context.Background(), sim.Req{Scheme: "https", Host: "app.example", Path: target}.Envoy())
+	resp, err := f.Check(context.Background(), sim.Req{Scheme: "https", Host: "app.example", Path: target, Headers: c07Headers}.Envoy())
 	if err != nil {
 		return false, err
 	}
@@ -269,6 +277,19 @@ func TestC07(t *testing.T) {
 				target += sim.PickStr(c, "url", "r=https://b/a", "http://a/b", "x://y/.b", "//a/b", "u=a://")
 			}
 		}
+		c07Headers = nil
+		if sim.Weighted(c, "path-like-headers", 3, 1) == 1 {
+			other := sim.PickStr(c, "hdr.path", "/", "/public", "/a", "/ab", "/b/a?x", "") // a path the rules may judge differently
+			if nr > 0 && sim.Bool(c, "hdr.from-pattern") {
+				ru := rules[sim.Pick(c, "hdr.rule", nr)]
+				if l := append(append([]c07Pat{}, ru.Ex...), ru.In...); len(l) > 0 {
+					other = l[sim.Pick(c, "hdr.idx", len(l))].S
+				}
+			}
+			c07Headers = map[string]string{"x-envoy-original-path": other, "x-original-url": other, "x-rewrite-url": other, "x-forwarded-uri": other, "x-forwarded-path": other, "x-envoy-decorator-operation": other}
+			c.Class("request:path-like-headers")
+		}
+		defer func() { c07Headers = nil }()
 		c07Judge(c, cache, rules, target)
 		// further requests on the SAME filter instance: the verdict is a function of rules and path, not of what was
 		// asked before. Targets are built from the patterns themselves so that patterns in the middle of a list are hit.
